@@ -549,6 +549,11 @@ def r10_settings_describe_the_data(ctx):
     r(ctx)
 
 
+def r11_store_order(ctx):
+    from ..fitclauses import clause_store_order
+    clause_store_order(ctx)
+
+
 RULES = [
     ("C03-R1", "a changed setting drops results on every storing path",
      r1_invalidate_on_change),
@@ -568,4 +573,6 @@ RULES = [
      "pipeline behind", r9_failed_request_forgotten),
     ("C03-R10", "a steps/options keyword of fit_model is applied to the "
      "data before it is stored", r10_settings_describe_the_data),
+    ("C03-R11", "non-commuting settings of one request are stored in "
+     "dependency order", r11_store_order),
 ]
